@@ -50,24 +50,24 @@ theorem Outcome.stop {p : Proc} {op : Op} {d : Disk} {P : List Seg} {t : Seg} {f
 
 /-! ### `runOp` for a tail truncation -/
 
-theorem runOp_delTail_frozen {p : Proc} (hf : p.frozen.isSome = true) (n : Nat) (k : Option Nat) (wf : WriteFail) :
-    runOp p (.delTail n) k wf = (p, false) := by
+theorem runOp_delTail_frozen {p : Proc} (hf : p.frozen.isSome = true) (n : Nat) (pl : Plan) :
+    runOp p (.delTail n) pl = (p, false) := by
   simp only [runOp, hf, ↓reduceIte]
 
-theorem runOp_delTail_ok {p : Proc} (hf : p.frozen = none) {n : Nat} {k : Option Nat} {wf : WriteFail} {d1 : Disk}
-    {k' : Option Nat} (h : runActs p.disk wf (delTailActs (vdisk p.disk) n) k = (d1, none, k')) :
-    runOp p (.delTail n) k wf = ({ disk := d1 }, true) := by
+theorem runOp_delTail_ok {p : Proc} (hf : p.frozen = none) {n : Nat} {pl : Plan} {d1 : Disk}
+    {pl' : Plan} (h : runActs p.disk (delTailActs (vdisk p.disk) n) pl = (d1, none, pl')) :
+    runOp p (.delTail n) pl = ({ disk := d1 }, true) := by
   simp only [runOp, hf, Option.isSome_none, Bool.false_eq_true, ↓reduceIte, h]
 
-theorem runOp_delTail_err {p : Proc} (hf : p.frozen = none) {n : Nat} {k : Option Nat} {wf : WriteFail} {d1 : Disk}
-    {a : Act} {k' : Option Nat} (h : runActs p.disk wf (delTailActs (vdisk p.disk) n) k = (d1, some a, k'))
-    (hc : isCreate a = false) : runOp p (.delTail n) k wf = ({ disk := d1 }, false) := by
+theorem runOp_delTail_err {p : Proc} (hf : p.frozen = none) {n : Nat} {pl : Plan} {d1 : Disk}
+    {a : Act} {pl' : Plan} (h : runActs p.disk (delTailActs (vdisk p.disk) n) pl = (d1, some a, pl'))
+    (hc : isCreate a = false) : runOp p (.delTail n) pl = ({ disk := d1 }, false) := by
   simp only [runOp, hf, Option.isSome_none, Bool.false_eq_true, ↓reduceIte, h, hc]
 
-theorem runOp_delTail_stop {p : Proc} (hf : p.frozen = none) {n : Nat} {k : Option Nat} {wf : WriteFail} {d1 : Disk}
-    {a : Act} {k' : Option Nat} (h : runActs p.disk wf (delTailActs (vdisk p.disk) n) k = (d1, some a, k'))
+theorem runOp_delTail_stop {p : Proc} (hf : p.frozen = none) {n : Nat} {pl : Plan} {d1 : Disk}
+    {a : Act} {pl' : Plan} (h : runActs p.disk (delTailActs (vdisk p.disk) n) pl = (d1, some a, pl'))
     (hc : isCreate a = true) :
-    runOp p (.delTail n) k wf = ({ disk := d1, frozen := some p.disk.md.segs }, false) := by
+    runOp p (.delTail n) pl = ({ disk := d1, frozen := some p.disk.md.segs }, false) := by
   simp only [runOp, hf, Option.isSome_none, Bool.false_eq_true, ↓reduceIte, h, hc]
 
 /-! ### the specification on the log of an `FR` state -/
@@ -100,32 +100,58 @@ theorem tail_CR {p : Proc} {dd : Disk} {P : List Seg} {t : Seg} {ff : File} (h :
 
 /-! ### the truncation point lies in the tail segment -/
 
-theorem runActs_nil (d : Disk) (wf : WriteFail) (k : Option Nat) : runActs d wf [] k = (d, none, k) := by
+theorem runActs_nil (d : Disk) (pl : Plan) : runActs d [] pl = (d, none, pl) := by
   simp only [runActs]
 
-theorem runActs_cons_none (d : Disk) (wf : WriteFail) (a : Act) (as : List Act) :
-    runActs d wf (a :: as) none = runActs (applyF d a) wf as none := by
+/-- the plan is exhausted: the action succeeds -/
+theorem runActs_cons_nil (d : Disk) (a : Act) (as : List Act) :
+    runActs d (a :: as) [] = runActs (applyF d a) as [] := by
   simp only [runActs]
 
-theorem runActs_cons_succ (d : Disk) (wf : WriteFail) (a : Act) (as : List Act) (n : Nat) :
-    runActs d wf (a :: as) (some (n + 1)) = runActs (applyF d a) wf as (some n) := by
+/-- the plan lets the action succeed -/
+theorem runActs_cons_ok (d : Disk) (a : Act) (as : List Act) (pl : Plan) :
+    runActs d (a :: as) (none :: pl) = runActs (applyF d a) as pl := by
   simp only [runActs]
 
-theorem runActs_commit_zero (d : Disk) (wf : WriteFail) (m : Meta) (as : List Act) :
-    runActs d wf (.commit m :: as) (some 0) = (d, some (.commit m), none) := by
+theorem runActs_commit_fail (d : Disk) (wf : WriteFail) (m : Meta) (as : List Act) (pl : Plan) :
+    runActs d (.commit m :: as) (some wf :: pl) = (d, some (.commit m), pl) := by
   simp only [runActs, failEffect]
 
-theorem runActs_create_zero (d : Disk) (wf : WriteFail) (id b : Nat) (as : List Act) :
-    runActs d wf (.create id b :: as) (some 0) = (d, some (.create id b), none) := by
+theorem runActs_create_fail (d : Disk) (wf : WriteFail) (id b : Nat) (as : List Act) (pl : Plan) :
+    runActs d (.create id b :: as) (some wf :: pl) = (d, some (.create id b), pl) := by
   simp only [runActs, failEffect]
 
-theorem runActs_fsync_zero (d : Disk) (wf : WriteFail) (id : Nat) (as : List Act) :
-    runActs d wf (.fsync id :: as) (some 0) = (d, some (.fsync id), none) := by
+theorem runActs_fsync_fail (d : Disk) (wf : WriteFail) (id : Nat) (as : List Act) (pl : Plan) :
+    runActs d (.fsync id :: as) (some wf :: pl) = (d, some (.fsync id), pl) := by
   simp only [runActs, failEffect]
 
-theorem runActs_write_zero (d : Disk) (wf : WriteFail) (id : Nat) (es : List Entry) (sl : Bool) (as : List Act) :
-    runActs d wf (.write id es sl :: as) (some 0) = (failEffect d wf (.write id es sl), some (.write id es sl), none) := by
+theorem runActs_write_fail (d : Disk) (wf : WriteFail) (id : Nat) (es : List Entry) (sl : Bool) (as : List Act)
+    (pl : Plan) :
+    runActs d (.write id es sl :: as) (some wf :: pl) =
+      (failEffect d wf (.write id es sl), some (.write id es sl), pl) := by
   simp only [runActs]
+
+/-- two actions that both succeed -/
+theorem runActs_two_ok (d : Disk) (a b : Act) (as : List Act) (pl : Plan)
+    (h : pl = [] ∨ pl = [none] ∨ ∃ pl', pl = none :: none :: pl') :
+    ∃ pl'', runActs d (a :: b :: as) pl = runActs (applyF (applyF d a) b) as pl'' := by
+  rcases h with rfl | rfl | ⟨pl', rfl⟩
+  · exact ⟨[], by rw [runActs_cons_nil, runActs_cons_nil]⟩
+  · exact ⟨[], by rw [runActs_cons_ok, runActs_cons_nil]⟩
+  · exact ⟨pl', by rw [runActs_cons_ok, runActs_cons_ok]⟩
+
+/-- the shapes of a plan with respect to the first two actions -/
+theorem plan_two (pl : Plan) :
+    (pl = [] ∨ pl = [none] ∨ ∃ pl', pl = none :: none :: pl') ∨ (∃ wf pl', pl = some wf :: pl') ∨
+      (∃ wf pl', pl = none :: some wf :: pl') := by
+  rcases pl with _ | ⟨_ | wf, _ | ⟨_ | wf', pl'⟩⟩
+  · exact Or.inl (Or.inl rfl)
+  · exact Or.inl (Or.inr (Or.inl rfl))
+  · exact Or.inl (Or.inr (Or.inr ⟨pl', rfl⟩))
+  · exact Or.inr (Or.inr ⟨wf', pl', rfl⟩)
+  · exact Or.inr (Or.inl ⟨wf, [], rfl⟩)
+  · exact Or.inr (Or.inl ⟨wf, _, rfl⟩)
+  · exact Or.inr (Or.inl ⟨wf, _, rfl⟩)
 
 def rotMeta (d : Disk) (P : List Seg) (t : Seg) (mx : Nat) : Meta :=
   ⟨d.md.nextID + 1, P ++ [sealSeg t mx] ++ [newSeg d.md.nextID (mx + 1)], d.md.stable⟩
@@ -133,34 +159,34 @@ def rotMeta (d : Disk) (P : List Seg) (t : Seg) (mx : Nat) : Meta :=
 theorem rotCommit_eq (d : Disk) (P : List Seg) (t : Seg) (mx : Nat) : rotCommit d P t mx = .commit (rotMeta d P t mx) := rfl
 
 /-- commit, create (nothing follows): the three results -/
-theorem runActs_CR (d : Disk) (wf : WriteFail) (m : Meta) (id b : Nat) (k : Option Nat) :
-    runActs d wf [.commit m, .create id b] k = (d, some (.commit m), none) ∨
-    runActs d wf [.commit m, .create id b] k = (d.apply (.commit m), some (.create id b), none) ∨
-    ∃ k', runActs d wf [.commit m, .create id b] k = ((d.apply (.commit m)).apply (.create id b), none, k') := by
-  rcases k with _ | _ | _ | n
-  · exact Or.inr (Or.inr ⟨none, by simp only [runActs_cons_none, runActs_nil]; rfl⟩)
-  · exact Or.inl (runActs_commit_zero _ _ _ _)
-  · exact Or.inr (Or.inl (by rw [runActs_cons_succ, runActs_create_zero]; rfl))
-  · exact Or.inr (Or.inr ⟨some n, by simp only [runActs_cons_succ, runActs_nil]; rfl⟩)
+theorem runActs_CR (d : Disk) (m : Meta) (id b : Nat) (pl : Plan) :
+    (∃ pl', runActs d [.commit m, .create id b] pl = (d, some (.commit m), pl')) ∨
+    (∃ pl', runActs d [.commit m, .create id b] pl = (d.apply (.commit m), some (.create id b), pl')) ∨
+    ∃ pl', runActs d [.commit m, .create id b] pl = ((d.apply (.commit m)).apply (.create id b), none, pl') := by
+  rcases plan_two pl with h | ⟨wf, pl', rfl⟩ | ⟨wf, pl', rfl⟩
+  · obtain ⟨pl'', e⟩ := runActs_two_ok d (.commit m) (.create id b) [] pl h
+    exact Or.inr (Or.inr ⟨pl'', by rw [e, runActs_nil]; rfl⟩)
+  · exact Or.inl ⟨pl', runActs_commit_fail _ _ _ _ _⟩
+  · exact Or.inr (Or.inl ⟨pl', by rw [runActs_cons_ok, runActs_create_fail]; rfl⟩)
 
 /-! ### from `runActs` to `runOp` -/
 
-theorem out_err {d : Disk} {n : Nat} {k : Option Nat} {wf : WriteFail} {d1 : Disk} {a : Act} {k' : Option Nat}
-    (h : runActs d wf (delTailActs (vdisk d) n) k = (d1, some a, k')) (hc : isCreate a = false)
+theorem out_err {d : Disk} {n : Nat} {pl : Plan} {d1 : Disk} {a : Act} {pl' : Plan}
+    (h : runActs d (delTailActs (vdisk d) n) pl = (d1, some a, pl')) (hc : isCreate a = false)
     (o : Outcome { disk := d } (.delTail n) ({ disk := d1 }, false)) :
-    Outcome { disk := d } (.delTail n) (runOp { disk := d } (.delTail n) k wf) := by
+    Outcome { disk := d } (.delTail n) (runOp { disk := d } (.delTail n) pl) := by
   rw [runOp_delTail_err (p := { disk := d }) rfl h hc]; exact o
 
-theorem out_stop {d : Disk} {n : Nat} {k : Option Nat} {wf : WriteFail} {d1 : Disk} {a : Act} {k' : Option Nat}
-    (h : runActs d wf (delTailActs (vdisk d) n) k = (d1, some a, k')) (hc : isCreate a = true)
+theorem out_stop {d : Disk} {n : Nat} {pl : Plan} {d1 : Disk} {a : Act} {pl' : Plan}
+    (h : runActs d (delTailActs (vdisk d) n) pl = (d1, some a, pl')) (hc : isCreate a = true)
     (o : Outcome { disk := d } (.delTail n) ({ disk := d1, frozen := some d.md.segs }, false)) :
-    Outcome { disk := d } (.delTail n) (runOp { disk := d } (.delTail n) k wf) := by
+    Outcome { disk := d } (.delTail n) (runOp { disk := d } (.delTail n) pl) := by
   rw [runOp_delTail_stop (p := { disk := d }) rfl h hc]; exact o
 
-theorem out_ok {d : Disk} {n : Nat} {k : Option Nat} {wf : WriteFail} {d1 : Disk} {k' : Option Nat}
-    (h : runActs d wf (delTailActs (vdisk d) n) k = (d1, none, k'))
+theorem out_ok {d : Disk} {n : Nat} {pl : Plan} {d1 : Disk} {pl' : Plan}
+    (h : runActs d (delTailActs (vdisk d) n) pl = (d1, none, pl'))
     (o : Outcome { disk := d } (.delTail n) ({ disk := d1 }, true)) :
-    Outcome { disk := d } (.delTail n) (runOp { disk := d } (.delTail n) k wf) := by
+    Outcome { disk := d } (.delTail n) (runOp { disk := d } (.delTail n) pl) := by
   rw [runOp_delTail_ok (p := { disk := d }) rfl h]; exact o
 
 /-- a write over the leftover batch, or what a failed one leaves: nothing a reader or a restart sees changes -/
@@ -176,8 +202,8 @@ theorem FR.setP_log {d : Disk} {P : List Seg} {t : Seg} {f : File} (h : FR d P t
 theorem caseA {d : Disk} {P : List Seg} {t : Seg} {f : File} (h : FR d P t f)
     {newMax : Nat} (hk : d.md.segs.filter (keptB newMax) = P ++ [t])
     (hD : d.md.segs.filter (fun s => !keptB newMax s) = []) (htb : t.base ≤ newMax) (hmn : t.min ≤ newMax)
-    (hmx : newMax < f.base + f.synced.length) (k : Option Nat) (wf : WriteFail) :
-    Outcome { disk := d } (.delTail newMax) (runOp { disk := d } (.delTail newMax) k wf) := by
+    (hmx : newMax < f.base + f.synced.length) (pl : Plan) :
+    Outcome { disk := d } (.delTail newMax) (runOp { disk := d } (.delTail newMax) pl) := by
   have hv : rlog d P t f = view { disk := d } := by rw [h.view_run]
   have hsp : specApply (view { disk := d }) (.delTail newMax) =
       logP d P ++ (visU t.min f.base f.synced).filter (fun q => decide (q.1 ≤ newMax)) := by
@@ -194,7 +220,7 @@ theorem caseA {d : Disk} {P : List Seg} {t : Seg} {f : File} (h : FR d P t f)
       rw [hsp, sealSeg, visF_sealed]; simp [File.content, hpe]
     obtain ⟨o1, o2, o3⟩ := tail_CR (p := { disk := d }) h hss hmn hmx hv rfl hspec
     simp only [hss, ↓reduceIte, List.nil_append, rotCommit_eq] at hacts
-    rcases runActs_CR d wf (rotMeta d P t newMax) d.md.nextID (newMax + 1) k with hr | hr | ⟨k', hr⟩
+    rcases runActs_CR d (rotMeta d P t newMax) d.md.nextID (newMax + 1) pl with ⟨pl', hr⟩ | ⟨pl', hr⟩ | ⟨pl', hr⟩
     · exact out_err (by rw [hacts]; exact hr) rfl o1
     · exact out_stop (by rw [hacts]; exact hr) rfl o2
     · exact out_ok (by rw [hacts]; exact hr) o3
@@ -210,25 +236,24 @@ theorem caseA {d : Disk} {P : List Seg} {t : Seg} {f : File} (h : FR d P t f)
       rw [hsp, sealSeg, visF_sealed, l2, (h.setP hss [] true).2]
       simp [File.content, p2, s2, b2, spf]
     obtain ⟨o1, o2, o3⟩ := tail_CR (p := { disk := d }) h2 hss2 hmn (by rw [b2, s2]; exact hmx) hv2 rfl hspec2
-    -- the run, according to the position of the failing action
-    have hrest : ∀ k'' : Option Nat,
-        runActs ((setP d t.id [] true).apply (.fsync t.id)) wf
-          [.commit (rotMeta d P t newMax), .create d.md.nextID (newMax + 1)] k'' =
-        runActs d wf (delTailActs (vdisk d) newMax) k →
-        Outcome { disk := d } (.delTail newMax) (runOp { disk := d } (.delTail newMax) k wf) := by
-      intro k'' hk''
-      rcases runActs_CR ((setP d t.id [] true).apply (.fsync t.id)) wf (rotMeta d P t newMax) d.md.nextID
-        (newMax + 1) k'' with hr | hr | ⟨k', hr⟩
-      · exact out_err (by rw [← hk'']; exact hr) rfl o1
-      · exact out_stop (by rw [← hk'']; exact hr) rfl o2
-      · exact out_ok (by rw [← hk'']; exact hr) o3
-    rcases k with _ | _ | _ | n
-    · apply hrest none
-      rw [hacts, runActs_cons_none, runActs_cons_none]; rfl
+    -- the run, according to the plan
+    rcases plan_two pl with hpl | ⟨wf, pl', rfl⟩ | ⟨wf, pl', rfl⟩
+    · -- ForceSeal succeeds
+      obtain ⟨pl'', e⟩ := runActs_two_ok d (.write t.id [] true) (.fsync t.id)
+        [.commit (rotMeta d P t newMax), .create d.md.nextID (newMax + 1)] pl hpl
+      have hk'' : runActs d (delTailActs (vdisk d) newMax) pl =
+          runActs ((setP d t.id [] true).apply (.fsync t.id))
+            [.commit (rotMeta d P t newMax), .create d.md.nextID (newMax + 1)] pl'' := by
+        rw [hacts, e]; rfl
+      rcases runActs_CR ((setP d t.id [] true).apply (.fsync t.id)) (rotMeta d P t newMax) d.md.nextID
+        (newMax + 1) pl'' with ⟨q, hr⟩ | ⟨q, hr⟩ | ⟨q, hr⟩
+      · exact out_err (by rw [hk'']; exact hr) rfl o1
+      · exact out_stop (by rw [hk'']; exact hr) rfl o2
+      · exact out_ok (by rw [hk'']; exact hr) o3
     · -- the write of ForceSeal fails
-      have hr : runActs d wf (delTailActs (vdisk d) newMax) (some 0) =
-          (failEffect d wf (.write t.id [] true), some (.write t.id [] true), none) := by
-        rw [hacts, runActs_write_zero]
+      have hr : runActs d (delTailActs (vdisk d) newMax) (some wf :: pl') =
+          (failEffect d wf (.write t.id [] true), some (.write t.id [] true), pl') := by
+        rw [hacts, runActs_write_fail]
       apply out_err hr rfl
       rw [failEffect_write]
       cases wf with
@@ -238,12 +263,10 @@ theorem caseA {d : Disk} {P : List Seg} {t : Seg} {f : File} (h : FR d P t f)
         exact Outcome.err g1 (by rw [g2, hv]) (Or.inl (by rw [g3, hv])) (fun _ => g1.fextra_of_syn hsyn)
       | whole => exact Outcome.err h1 (by rw [e1, hv]) (Or.inl (by rw [a1, hv])) (fun _ => h1.fextra_of_syn hsyn)
     · -- its fsync fails
-      have hr : runActs d wf (delTailActs (vdisk d) newMax) (some (0 + 1)) =
-          (setP d t.id [] true, some (.fsync t.id), none) := by
-        rw [hacts, runActs_cons_succ, runActs_fsync_zero]; rfl
+      have hr : runActs d (delTailActs (vdisk d) newMax) (none :: some wf :: pl') =
+          (setP d t.id [] true, some (.fsync t.id), pl') := by
+        rw [hacts, runActs_cons_ok, runActs_fsync_fail]; rfl
       exact out_err hr rfl (Outcome.err h1 (by rw [e1, hv]) (Or.inl (by rw [a1, hv]))
         (fun _ => h1.fextra_of_syn hsyn))
-    · apply hrest (some n)
-      rw [hacts, runActs_cons_succ, runActs_cons_succ]; rfl
 
 end RaftWal.Fault.C
